@@ -38,7 +38,13 @@ fn main() {
                 for (k, x) in &r.stats {
                     *stats.entry(k.clone()).or_default() += x;
                 }
+                let known = coord::load_findings();
+                let is_known = |v: &host::Violation| known.findings.iter().any(|f| f.status == "known" && f.property == v.prop && f.code == v.code);
+                let cut = r.violations.iter().any(|(_, v)| is_known(v));
                 for (opi, x) in &r.violations {
+                    if cut && !is_known(x) {
+                        continue;
+                    }
                     let e = kinds.entry(format!("{}.{}", x.prop, x.code)).or_default();
                     if *e < 4 {
                         eprintln!("VIOL seed {} op {}: {} {} {}", seed, opi, x.prop, x.code, x.detail);
